@@ -176,7 +176,7 @@ def run(module, cfg, workers=16, cwd=None, env=None, dump=None, dump_dot=None,
         r.violated = mm.group(1) if mm else "action-property"
     elif "Error: Deadlock reached" in r.out:
         r.violated = "deadlock"
-    elif "Error: Temporal properties were violated" in r.out:
+    elif "Error: Temporal properties were violated" in r.out or re.search(r"Error: Temporal property \S+ was violated", r.out):
         r.violated = "temporal"
     elif "Error: Assumption" in r.out:
         r.violated = "assumption"
